@@ -103,7 +103,7 @@ M = [
  ('c18-gate-removed', ['C18'], M11, '    assert_contract_version(deps.storage, CONTRACT_NAME, FROM_VERSION)?;\n', ''),
  # ---- C19
  ('c19-miniwasm-url', ['C19'], MW, 'type_url: "/miniwasm.tokenfactory.v1.MsgBurn".to_string(),', 'type_url: "/miniwasm.tokenfactory.v1.MsgMint".to_string(),'),
- ('c19-miniwasm-mint-to-swapped', ['C19'], MW, '    let bytes = MsgMint {\n        sender,', '    let bytes = MsgMint {\n        sender: mint_to_address.clone() + "",'),
+ ('c19-miniwasm-subdenom-lowercased', ['C19'], MW, '    let bytes = MsgCreateDenom { sender, subdenom }', '    let bytes = MsgCreateDenom { sender, subdenom: subdenom.to_lowercase() }'),
  # ---- C20
  ('c20-url-check-dropped', ['C20'], TR, 'if any.type_url == Self::TYPE_URL {', 'if any.type_url == Self::TYPE_URL || !any.type_url.is_empty() {'),
 ]
